@@ -27,11 +27,17 @@ Definition mem_gty (t : gty) (l : list gty) : bool := existsb (gty_eqb t) l.
 
 Definition model_enums (pr : prog) : list enum := match fetch_enums pr with Ok l => l | _ => [] end.
 
-Definition fuel_for (pr : prog) (a : ana_obs) : nat := 50 + 20 * (List.length (pr_types pr) + List.length (ao_nodes a)).
+(** the fuel of theorem C12_terminates: one more than the bound computed from the program *)
+Definition fuel_for (pr : prog) (source : list gty) : nat :=
+  S (closure_bound pr (model_enums pr) (fetch_unions pr) source).
+
+(** the premise of that theorem: the declarations of the file are positions of the universe *)
+Definition source_in_universe (pr : prog) (source : list gty) : bool :=
+  forallb (fun t => mem_gty t (universe pr (model_enums pr) (fetch_unions pr))) source.
 
 Definition chk_model (c : c12_case) : bool :=
   let pr := c12_prog c in let a := c12_ana c in
-  match analyse_closure pr (model_enums pr) (fetch_unions pr) (c12_source c) (fuel_for pr a), ao_outcome a with
+  match analyse_closure pr (model_enums pr) (fetch_unions pr) (c12_source c) (fuel_for pr (c12_source c)), ao_outcome a with
   | Ok cl, OutOk =>
       (* every position of the model closure was reached, with the same node description *)
       forallb (fun ts => existsb (fun n => gty_eqb (nr_at n) (fst ts) && node_matches (snd ts) n) (ao_nodes a)) cl
@@ -43,6 +49,7 @@ Definition chk_model (c : c12_case) : bool :=
       && forallb (fun ts => is_synthetic (fst ts) || mem_gty (fst ts) (ao_types_keys a)) cl
       && forallb (fun k => mem_gty k (map fst cl)) (ao_types_keys a)
       && gtys_eqb (ao_source a) (c12_source c)
+      && source_in_universe pr (c12_source c)
   | Diag _, OutDiag _ => true
   | Crash _, OutCrash _ => true
   | _, _ => false
